@@ -58,6 +58,7 @@ def main():
                 apply(mut, tmp)
                 env = dict(os.environ)
                 env["PYTHONPATH"] = f"{ROOT}:{tmp}/src"
+                env["XSM_VERDICT_ONLY"] = "1"
                 env["PYTHONHASHSEED"] = "0"
                 env["XSM_OUT_DIR"] = os.path.join(tmp, "out")
                 t0 = time.time()
@@ -67,11 +68,13 @@ def main():
                 verdict = {0: "SURVIVED", 1: "killed", 2: "harness-error"}.get(p.returncode, f"exit{p.returncode}")
                 r = {"mutant": mut["id"], "property": prop, "verdict": verdict, "wall_s": round(time.time() - t0, 1),
                      "tags": [l.strip()[:200] for l in vio if l.startswith("  tag=")][:4], "what": mut.get("what", "")}
-                print(json.dumps(r))
+                print("MUTANT " + json.dumps({k: r[k] for k in ("mutant", "property", "verdict", "wall_s")} | {"tags": [t[:140] for t in r["tags"][:1]]}), flush=True)
                 if verdict == "harness-error":
                     print(p.stderr[-1500:])
                 results = [x for x in results if not (x["mutant"] == r["mutant"] and x["property"] == r["property"])]
                 results.append(r)
+                os.makedirs(os.path.dirname(a.out), exist_ok=True)
+                json.dump(results, open(a.out, "w"), indent=1)
             finally:
                 shutil.rmtree(tmp, ignore_errors=True)
     os.makedirs(os.path.dirname(a.out), exist_ok=True)
